@@ -382,6 +382,37 @@ def unit_bins_twice(U):
         U.prove("C12.bins.twice#p%d" % p.index, "two calls of bins(one=True) in a row: each result is the bin of ITS arguments (in-range gff coordinates)", p.pc, goal, vars_, replay=replay)
 
 
+def unit_print_bin_sizes(U):
+    """the other public function of bins.py, print_bin_sizes() (a debugging aid), leaves the binning scheme alone: after it
+    has run, bins() still answers as specified (its module-level tables are unchanged)"""
+    import io
+    import contextlib
+    it = Interp()
+    s, e = z3.Int("start"), z3.Int("end")
+    vars_ = {"start": s, "end": e}
+
+    def run(ctx):
+        ctx.assume(z3.And(s >= 1, e >= s, e < 2 ** 29))
+        with contextlib.redirect_stdout(io.StringIO()):
+            it.call(B.print_bin_sizes, [], {})
+        return it.call(B.bins, [SInt(s), SInt(e)], {"one": True})
+
+    def replay(m):
+        cands = [(int(m.get("start", 262145)), int(m.get("end", 262200))), (262145, 262200), (100, 900), (5000000, 9000000)]
+        with contextlib.redirect_stdout(io.StringIO()):
+            B.print_bin_sizes()
+        for a, b in cands:
+            if not (1 <= a <= b < 2 ** 29):
+                continue
+            got, exp = B.bins(a, b, one=True), S.bin1(a, b, "gff")
+            if got != exp:
+                return {"inputs": {"history": "print_bin_sizes(); bins(%d, %d, one=True)" % (a, b)}, "expected": exp, "observed": got, "violates": True}
+        return {"inputs": cands, "violates": False}
+    for p in U.explore(run, it):
+        ok = p.kind == "return" and isinstance(p.value, (SInt, int))
+        U.prove("C12.bins.after_print_bin_sizes#p%d" % p.index, "bins() after print_bin_sizes() has run == the bin of its arguments", p.pc, Eq(p.value, S.bin1(s, e, "gff")) if ok else z3.BoolVal(False), vars_, replay=replay)
+
+
 def unit_stored_bin(U):
     """every statement that writes a row of `features` stores bin = bins(start, end) of the feature it writes:
     _DBCreator._insert / _replace (import, merge_strategy='replace') and FeatureDB._insert / _update (add_relation
@@ -543,7 +574,7 @@ def unit_handed_out(U):
 
 UNITS = [("bounded.handed_out", unit_handed_out), ("bins[gff,one]", _unit_bins("gff", True)), ("bins[gff,set]", _unit_bins("gff", False)),
          ("bins[bed,one]", _unit_bins("bed", True)), ("bins[bed,set]", _unit_bins("bed", False)),
-         ("lemma.nest", unit_nest), ("init_bin", unit_init_bin), ("calc_bin", unit_calc_bin), ("calc_bin_twice", unit_calc_bin_twice), ("bins_twice", unit_bins_twice), ("stored_bin", unit_stored_bin),
+         ("lemma.nest", unit_nest), ("init_bin", unit_init_bin), ("calc_bin", unit_calc_bin), ("calc_bin_twice", unit_calc_bin_twice), ("bins_twice", unit_bins_twice), ("print_bin_sizes", unit_print_bin_sizes), ("stored_bin", unit_stored_bin),
          ("bounded.boundaries", unit_boundary)]
 
 
